@@ -268,6 +268,11 @@ func (ss *sessState) runStep(i int) {
 	verifsim.Yield(seamStep)
 	obs := ss.doStep(i, st)
 	ss.obs = append(ss.obs, obs)
+	if st.Bomb != nil || len(st.Doc) > 1<<20 || (st.Reader != nil && (st.Reader.Bomb != nil || len(st.Reader.Data) > 1<<20)) {
+		// the collector is off between plan events; after a step on a huge
+		// document the garbage of that step is released (deterministically)
+		runtime.GC()
+	}
 	ss.checkKept(i)
 }
 
@@ -673,6 +678,7 @@ func poolPolicy(name string) int {
 }
 
 func execSessions(p *plan.Plan, res *plan.Result) {
+	smallMaps = p.Config.SmallMaps
 	verifsim.SetPoolPolicy(poolPolicy(p.Config.PoolPolicy), p.Config.PoolSeed)
 	res.Obs = map[string][]string{}
 	sharedTable = map[string]*sharedHandle{}
@@ -711,7 +717,7 @@ func execSessions(p *plan.Plan, res *plan.Result) {
 		}
 		cfg := verifsim.Config{Seed: p.Sched.Seed, Prob: p.Sched.Prob, MaxYields: p.Sched.MaxYields}
 		for _, pt := range p.Sched.Points {
-			cfg.Points = append(cfg.Points, verifsim.Point{At: pt.At, Site: pt.Site, Occ: pt.Occ, To: pt.To})
+			cfg.Points = append(cfg.Points, verifsim.Point{At: pt.At, Site: pt.Site, Occ: pt.Occ, Task: pt.Task, To: pt.To})
 		}
 		sr := verifsim.Run(cfg, fns)
 		res.Yields = sr.Yields
@@ -721,7 +727,7 @@ func execSessions(p *plan.Plan, res *plan.Result) {
 		res.Interleave = res.LogHash
 		for _, sw := range sr.Switches {
 			if len(res.SwitchList) < 512 {
-				res.SwitchList = append(res.SwitchList, plan.Point{At: sw.At, Site: sw.Site, To: sw.To})
+				res.SwitchList = append(res.SwitchList, plan.Point{At: sw.At, Site: sw.Site, Occ: sw.Occ, Task: sw.From, To: sw.To})
 			}
 		}
 		if sr.Switches != nil {
